@@ -12,7 +12,7 @@ open GV.Src.GeoJson (Kw PolygonS BoxS CurvedS RingS LineS PointS PolyM MPolyS ML
   ringLinearRings mpolyLinearRings boxBounds pointBounds pointCentroid polygonToGeoInterface boxToGeoInterface
   curvedToGeoInterface ringToGeoInterface lineGeoInterface lineToGeoInterface pointGeoInterface pointToGeoInterface
   mlineGeoInterface mlineToGeoInterface mpointGeoInterface mpointToGeoInterface mpolyToGeoInterface startDt endDt
-  propertiesJson getDtFromGeojsonProps)
+  propertiesJson getDtFromGeojsonProps pointFromGeoJson jIter)
 
 variable (rt : Rt)
 
@@ -352,6 +352,79 @@ theorem getDt_eq (rec : Obj) (ks ke : String) :
     | ok b =>
       cases a <;> cases b <;> simp
       cases TI.mk? _ _ <;> rfl
+
+/-! ## the importers (`from_geojson`)
+
+The translated importers hand `get_dt_from_geojson_props` a dict made by `dict(…)` inside the importer (the translator
+refuses the call otherwise: the function pops from the dict it is given), so the caller's document is not touched — the
+model's `copy = true`; what is proved here is that the imported shape is the model's. -/
+
+/-- `dict(gjson.get('properties') or {})` followed by `get_dt_from_geojson_props`, as the model reads it -/
+theorem propsAndDt_fst (d : Obj) (ks ke : String) (r : Option TI × Obj × Obj) (h : propsAndDt rt d ks ke = .ok r) :
+    r.2.2 = d := propsAndDt_doc h
+
+set_option hygiene false in
+/-- the tail every importer shares: `dict(gjson.get('properties') or {})`, `get_dt_from_geojson_props`, the constructor -/
+local macro "props_tail" d:term "," ks:term "," ke:term "," rt:term : tactic =>
+  `(tactic| (
+    cases hpr : oget $d "properties" with
+    | none => simp [hpr, J.truthy]; cases getDt $rt ([] : Obj) $ks $ke <;> simp [Except.map]
+    | some j =>
+      cases j with
+      | obj p => cases p <;> simp [J.truthy] <;> (generalize getDt $rt _ $ks $ke = r) <;> cases r <;> simp [Except.map]
+      | null => simp [J.truthy]; cases getDt $rt ([] : Obj) $ks $ke <;> simp [Except.map]
+      | bool b => cases b <;> simp [J.truthy, Except.map] <;> cases getDt $rt ([] : Obj) $ks $ke <;> simp [Except.map]
+      | num q => by_cases hq : q = 0 <;> simp [J.truthy, Except.map, hq] <;> cases getDt $rt ([] : Obj) $ks $ke <;> simp [Except.map]
+      | str s => by_cases hs : s = "" <;> simp [J.truthy, Except.map, hs] <;> cases getDt $rt ([] : Obj) $ks $ke <;> simp [Except.map]
+      | dt u => simp [J.truthy, Except.map]
+      | arr xs => cases xs <;> simp [J.truthy, Except.map] <;> cases getDt $rt ([] : Obj) $ks $ke <;> simp [Except.map]))
+
+set_option hygiene false in
+/-- the type test of an importer on the geometry dict `g`: `geom.get('type') == '<Name>'`; the continuation proves the goal
+    for a document of the right type (`ht : oget g "type" = some (.str t)`, `hp : t = name`) -/
+local macro "type_gate" g:term "," name:term "=>" k:tacticSeq : tactic =>
+  `(tactic| (
+    cases ht : oget $g "type" with
+    | none => simp [ht, Except.map, bind, Except.bind]
+    | some t =>
+      cases t with
+      | str t =>
+        by_cases hp : t = $name
+        · simp only [ht, hp, Option.getD_some, beq_self_eq_true, if_true]
+          ($k)
+        · simp [ht, hp, Except.map, bind, Except.bind]
+      | _ => simp [ht, Except.map, bind, Except.bind]))
+
+/-- **`GeoPoint.from_geojson`** returns the shape the model's importer returns (and raises what it raises) -/
+theorem pointFromGeoJson_eq (d : Obj) (ks ke : String) :
+    pointFromGeoJson rt d ks ke = (fromGeoJson rt .point (.obj d) ks ke).map (·.1) := by
+  simp only [pointFromGeoJson, getDt_eq, fromGeoJson, selectGeom, Kind.name, checkType, geomEarly, geomLate, propsAndDt]
+  cases hc : ohas d "coordinates" <;> simp only [Bool.false_eq_true, if_false, if_true]
+  · cases hg : oget d "geometry" with
+    | none => simp [oget, Except.map]
+    | some g =>
+      cases g with
+      | obj g =>
+        simp only [Option.getD_some]
+        type_gate g, "Point" =>
+          cases hco : oget g "coordinates" with
+          | none => simp [ht, hp, hco, Except.map, bind, Except.bind]
+          | some c =>
+            cases hpos : posOfJ c with
+            | error e => simp [ht, hp, hco, hpos, Except.map, bind, Except.bind]
+            | ok pos =>
+              simp [ht, hp, hco, hpos, bind, Except.bind, pure, Except.pure]
+              props_tail d, ks, ke, rt
+      | _ => simp [Except.map]
+  · type_gate d, "Point" =>
+      cases hco : oget d "coordinates" with
+      | none => simp [ht, hp, hco, Except.map, bind, Except.bind]
+      | some c =>
+        cases hpos : posOfJ c with
+        | error e => simp [ht, hp, hco, hpos, Except.map, bind, Except.bind]
+        | ok pos =>
+          simp [ht, hp, hco, hpos, bind, Except.bind, pure, Except.pure]
+          props_tail d, ks, ke, rt
 
 /-! ## the export chain as the source dispatches it
 
